@@ -96,7 +96,12 @@ Section Proto.
     if p_stream_live p then stream_closed ;; modify (fun p => set_slot (p_slot p) false p) else ret tt.
 
   (* H11Protocol.handle(Closed) *)
-  Definition handle_closed : MP unit := p <- get ;; if p_stream_live p then close_stream else ret tt.
+  (* handle(Closed): the protocol is closed, its stream (if any) is closed, and a reader waiting for the response to
+     complete is released (finding F64: it used to wait for ever) *)
+  Definition handle_closed : MP unit :=
+    modify (set_closed true) ;;
+    p <- get ;; (if p_stream_live p then close_stream else ret tt) ;;
+    modify (set_can_read true) ;; note "can_read.set".
 
   (* await self.send(event) towards the server; a failed write makes the server call handle(Closed) *)
   Definition srv_send (e : srvevent) : MP unit :=
@@ -334,7 +339,7 @@ Section Proto.
            whatever else it sends is ignored (not even handed to h11); likewise once the connection has been closed *)
         if p_closed p || last_response_in_progress p then ret tt else
         emit (OLib [VS "receive_data"]) ;; modify (set_events evs) ;; handle_events (S (S (length evs)))
-    | IClosed => handle_closed
+    | IClosed => handle_closed ;; resume_if_ready []
     | IApp m evs =>
         (* the application's send and the resumed reader are different tasks: the reader runs
            whatever the send's outcome was, and its own failure is not the application's *)
